@@ -139,6 +139,9 @@ func (p *Population) StoreInnovation(innovation Innovation) {
 }
 
 func (p *Population) Innovations() []Innovation {
+	// read the slice header under the lock that guards the append in StoreInnovation
+	p.mutex.Lock()
+	defer p.mutex.Unlock()
 	return p.innovations
 }
 
